@@ -4,6 +4,7 @@ import (
 	"bytes"
 	"encoding/json"
 	"math"
+	"strings"
 
 	"pgregory.net/rapid"
 )
@@ -76,10 +77,11 @@ func (g *G) focused(ts []string) []string {
 func DefaultCfg() Cfg { return Cfg{MaxOps: 6, MaxDepth: 3} }
 
 type G struct {
-	t    *rapid.T
-	cfg  Cfg
-	set  Settings
-	nkey int
+	nilHooks map[string]bool // kinds of nil-data-word hooks already used in this program
+	t        *rapid.T
+	cfg      Cfg
+	set      Settings
+	nkey     int
 
 	compositeOnly bool
 	inFields      bool
@@ -266,14 +268,17 @@ func (g *G) timeInto(v *Val, label string) {
 		// sub-second instants only where float64 seconds resolve < 1µs
 		if v.Sec >= -4294967296 && v.Sec <= 4294967296 {
 			v.Nsec = rapid.SampledFrom([]int64{0, 0, 1000, 500000000, 999999000, 123456000, 1000000, 999000000}).Draw(t, label+".ns")
+		} else {
+			// further out only binary fractions of a second, which float64 seconds carry exactly
+			v.Nsec = rapid.SampledFrom([]int64{0, 500000000, 250000000, 750000000, 125000000}).Draw(t, label+".nsfar")
 		}
 	} else {
 		v.Nsec = rapid.SampledFrom([]int64{0, 0, 1, 999, 1000, 999999, 1000000, 500000000, 999999999, 123456789}).Draw(t, label+".ns")
 	}
 	if rapid.IntRange(0, 3).Draw(t, label+".zc") == 0 {
-		zones := []int{3600, -3600, 19800, -28800, 50400, 1, -1, 45296}
+		zones := []int{3600, -3600, 19800, -28800, 50400, -12600, -34200, -1800, 20700, 1, -1, 45296, -45296}
 		if g.cfg.C08 {
-			zones = zones[:5] // RFC 3339 offsets have minute resolution: the JSON side could not express the instant
+			zones = zones[:9] // RFC 3339 offsets have minute resolution: the JSON side could not express the instant
 		}
 		v.Zone = rapid.SampledFrom(zones).Draw(t, label+".zone")
 		// keep year within 1..9999 after zone shift
@@ -721,12 +726,26 @@ func (g *G) Settings() Settings {
 	}
 	s.DurUnit = rapid.SampledFrom([]int64{0, 0, 1, 1000, 1000000, 1000000000, 60000000000, 7, 3600000000000}).Draw(t, "set.du")
 	s.DurInt = rapid.IntRange(0, 2).Draw(t, "set.di") == 0
+	s.DefaultCtx = g.cfg.Tree && rapid.IntRange(0, 3).Draw(t, "set.defctx") == 0
+	if !g.cfg.C08 && rapid.IntRange(0, 11).Draw(t, "set.duzero") == 0 {
+		// DurationFieldUnit = 0 in float mode: every duration becomes +Inf, -Inf or NaN, which the float
+		// encoders know how to write (integer mode would divide by zero in the caller's goroutine)
+		s.DurUnit, s.DurInt = -1, false
+	}
 	if !g.cfg.C08 {
 		s.FloatPrec = rapid.SampledFrom([]int{-1, -1, -1, -1, 0, 1, 3, 17}).Draw(t, "set.fp")
 	}
 	s.ErrMarshal = rapid.SampledFrom([]string{"", "", "", "string", "obj", "othererr", "nil", "struct"}).Draw(t, "set.em")
 	s.StackMarshal = rapid.SampledFrom([]string{"", "", "nil", "string", "error", "obj", "frames", "nilerr"}).Draw(t, "set.sm")
-	s.IfaceMarshal = rapid.SampledFrom([]string{"", "", "stdjson", "wrap"}).Draw(t, "set.im")
+	s.IfaceMarshal = rapid.SampledFrom([]string{"", "", "", "stdjson", "wrap", "fail"}).Draw(t, "set.im")
+	if s.IfaceMarshal == "fail" {
+		// lengths on both sides of the string-head boundaries once "marshaling error: " (17 bytes) is put in front
+		n := rapid.SampledFrom([]int{0, 1, 5, 6, 7, 16, 23, 24, 100, 238, 239, 300}).Draw(t, "set.imerrlen")
+		s.IfaceErr = strings.Repeat("e", n)
+		if n >= 5 && rapid.Bool().Draw(t, "set.imerrq") {
+			s.IfaceErr = `q"\` + s.IfaceErr[3:] // text that needs escaping
+		}
+	}
 	s.LevelMarshal = rapid.SampledFrom([]string{"", "", "", "", "upper", "total"}).Draw(t, "set.lm")
 	if rapid.IntRange(0, 5).Draw(t, "set.glow") == 0 {
 		s.GlobalLow = rapid.SampledFrom([]int{8, 8, 3, 128}).Draw(t, "set.glowv")
@@ -761,6 +780,20 @@ func (g *G) Hook(id int, label string) HookSpec {
 	h.Wrap = rapid.SampledFrom([]string{"", "", "func", "level", "levelsome"}).Draw(t, label+".hw")
 	if g.set.GlobalLow > 0 && rapid.Bool().Draw(t, label+".hwlow") {
 		h.Wrap = "level" // custom verbose levels are where a LevelHook must stay silent
+	}
+	if rapid.IntRange(0, 9).Draw(t, label+".hnil") == 0 && len(g.nilHooks) < 2 {
+		// a hook whose interface value has a nil data word (typed-nil pointer with a nil-safe Run, a
+		// struct around one nil pointer): it is a hook like any other and adds its field
+		h.Kind, h.Wrap = "add", rapid.SampledFrom([]string{"nilptr", "nilfield"}).Draw(t, label+".hnilkind")
+		if g.nilHooks[h.Wrap] {
+			h.Wrap = map[string]string{"nilptr": "nilfield", "nilfield": "nilptr"}[h.Wrap] // one of each kind per program
+		}
+		if g.nilHooks == nil {
+			g.nilHooks = map[string]bool{}
+		}
+		g.nilHooks[h.Wrap] = true
+		h.Ops = []Op{{K: []byte(NilHookKey), V: Val{T: "str", S: []byte("ran")}}}
+		return h
 	}
 	switch h.Kind {
 	case "add":
@@ -883,6 +916,9 @@ func (g *G) Steps(label string, maxSteps int) []Step {
 			from, parent = &f, f
 		case patKind == "disabledctx" && i == patAt+2:
 			forced, forceN = "viactx", 1
+			if g.set.DefaultCtx && rapid.Bool().Draw(t, label+".ctxempty") {
+				forceN = 0 // a context without a logger: Ctx falls back to the program's DefaultContextLogger
+			}
 			f := patAt + 1
 			from, parent = &f, f
 		case patKind == "disabledctx" && i == patAt+3:
